@@ -160,6 +160,10 @@ func main() {
 				continue
 			}
 			name := "zz_verif_" + strings.TrimSuffix(strings.TrimSuffix(e.Name(), ".go"), "_test") + "_test.go"
+			if strings.HasPrefix(e.Name(), "hook") {
+				// a seam compiled into the package itself (only under the overlay)
+				name = "zz_verif_" + e.Name()
+			}
 			overlay[filepath.Join(*repo, pkgDir, name)] = filepath.Join(*harness, sub, e.Name())
 		}
 	}
@@ -230,6 +234,15 @@ func rewrite(p *packages.Package, f *ast.File, rep *report) []byte {
 				return true
 			}
 			path := pn.Imported().Path()
+			if strings.HasSuffix(path, "/internal/vcs") && n.Sel.Name == "DialGitRepository" && strings.HasSuffix(p.PkgPath, "/internal/mvs") {
+				// the one place dawn reaches the network: the default dialer. The harness file
+				// hook.go (overlaid as a non-test file of internal/mvs) defines verifDialGit,
+				// which dials a simulated repository when a harness has installed one and the
+				// real one otherwise.
+				c.Replace(ast.NewIdent("verifDialGit"))
+				rep.Selectors["internal/vcs.DialGitRepository"]++
+				return false
+			}
 			if t, ok := table[path]; ok {
 				if t.names[n.Sel.Name] {
 					n.X = ast.NewIdent(t.pkg)
